@@ -151,12 +151,10 @@ theorem sfitsV_sound (ρ : Nat → Int) :
         simp only [fitsV, hc', hsft', Bool.false_eq_true, if_false, Bool.and_eq_true]
         exact ⟨sfitsV_sound ρ a _ _ h.1, sfitsV_sound ρ b _ _ h.2⟩
   | .cond c a b, W, sg, h => by
-    simp only [sfitsV, Bool.and_eq_true, decide_eq_true_eq] at h
-    obtain ⟨⟨⟨⟨hc, hwc⟩, hrc⟩, ha⟩, hb⟩ := h
-    have bc := bounds_sound ρ c
-    simp only [fitsV, Bool.and_eq_true, decide_eq_true_eq]
-    exact ⟨⟨⟨⟨sfitsV_sound ρ c _ _ hc, hwc⟩, inRange_of_bounds hrc bc.1 bc.2⟩, sfitsV_sound ρ a _ _ ha⟩,
-      sfitsV_sound ρ b _ _ hb⟩
+    simp only [sfitsV, Bool.and_eq_true] at h
+    obtain ⟨⟨hc, ha⟩, hb⟩ := h
+    simp only [fitsV, Bool.and_eq_true]
+    exact ⟨⟨sfitsV_sound ρ c _ _ hc, sfitsV_sound ρ a _ _ ha⟩, sfitsV_sound ρ b _ _ hb⟩
   | .psel a hi lo, W, sg, h => by
     simp only [sfitsV, Bool.and_eq_true, decide_eq_true_eq] at h
     obtain ⟨⟨⟨ha, hhi⟩, hlo⟩, hf⟩ := h
@@ -207,6 +205,23 @@ theorem promOk_of_spromOk (ρ : Env) (e : Expr) (b : Bool) (hf : fitsP ρ e = tr
     rw [printE_ideal ρ e hf] at this
     exact inRange_of_bounds h this.1 this.2
 
+/-- Static `condOk` is sound. -/
+theorem condOk_of_scondOk (ρ : Env) (c : Expr) (hf : fitsP ρ c = true) (h : scondOk c = true) :
+    condOk ρ c = true := by
+  simp only [scondOk, Bool.or_eq_true, decide_eq_true_eq] at h
+  simp only [condOk, beq_iff_eq, decide_eq_decide]
+  rcases h with heq | hb
+  · rw [heq]
+  · have hb' := bounds_sound ρ (printE c).1
+    rw [printE_ideal ρ c hf] at hb'
+    have hr := inRange_of_bounds hb hb'.1 hb'.2
+    simp only [inRange, Bool.false_eq_true, if_false, Bool.and_eq_true, decide_eq_true_eq] at hr
+    have h1 : tn (selfWidth (printE c).1) (evalF ρ c) = evalF ρ c :=
+      tn_of_range hr.1 (Int.lt_of_lt_of_le hr.2 (p2_le (Nat.min_le_left _ _)))
+    have h2 : tn (bitsSign c).1 (evalF ρ c) = evalF ρ c :=
+      tn_of_range hr.1 (Int.lt_of_lt_of_le hr.2 (p2_le (Nat.min_le_right _ _)))
+    rw [h1, h2]
+
 mutual
 theorem sfitsP_sound (ρ : Env) : ∀ (e : Expr), sfitsP e = true → envOk ρ e = true → fitsP ρ e = true
   | .const v w s, h, _ => by simpa [sfitsP, fitsP] using h
@@ -239,18 +254,19 @@ theorem sfitsP_sound (ρ : Env) : ∀ (e : Expr), sfitsP e = true → envOk ρ e
   | .mux c a b, h, he => by
     simp only [sfitsP, Bool.and_eq_true] at h
     simp only [envOk, Bool.and_eq_true] at he
-    obtain ⟨⟨⟨⟨h1, h2⟩, h3⟩, h4⟩, h5⟩ := h
+    obtain ⟨⟨⟨⟨⟨h1, h2⟩, h3⟩, h4⟩, h5⟩, h6⟩ := h
     have hc := sfitsP_sound ρ c h1 he.1.1
     have ha := sfitsP_sound ρ a h2 he.1.2
     have hb := sfitsP_sound ρ b h3 he.2
     simp only [fitsP, Bool.and_eq_true]
-    exact ⟨⟨⟨⟨hc, ha⟩, hb⟩, promOk_of_spromOk ρ a _ ha h4⟩, promOk_of_spromOk ρ b _ hb h5⟩
+    exact ⟨⟨⟨⟨⟨hc, ha⟩, hb⟩, promOk_of_spromOk ρ a _ ha h4⟩, promOk_of_spromOk ρ b _ hb h5⟩,
+      condOk_of_scondOk ρ c hc h6⟩
   | .slice a lo hi, h, he => by
     simp only [sfitsP, Bool.and_eq_true] at h
     simp only [envOk] at he
-    obtain ⟨⟨⟨⟨h1, h2⟩, h3⟩, h4⟩, h5⟩ := h
+    obtain ⟨⟨⟨h1, h2⟩, h3⟩, h4⟩ := h
     simp only [fitsP, Bool.and_eq_true]
-    exact ⟨⟨⟨⟨sfitsP_sound ρ a h1 he, h2⟩, h3⟩, h4⟩, h5⟩
+    exact ⟨⟨⟨sfitsP_sound ρ a h1 he, h2⟩, h3⟩, h4⟩
   | .cat l, h, he => by
     simp only [sfitsP] at h
     simp only [envOk] at he
